@@ -319,7 +319,8 @@ theorem toZMod_mul (a b : ℕ) : toZMod (mul a b) = toZMod a * toZMod b := by
 
 theorem toZMod_neg (a : ℕ) : toZMod (neg a) = - toZMod a := by
   unfold toZMod neg
-  rw [Nat.cast_sub (Nat.mod_lt _ r_pos).le, ZMod.natCast_self, ZMod.natCast_mod, zero_sub]
+  rw [ZMod.natCast_mod, Nat.cast_sub (Nat.mod_lt _ r_pos).le, ZMod.natCast_self, ZMod.natCast_mod,
+    zero_sub]
 
 theorem pow_eq (a e : ℕ) : pow a e = a ^ e % r := powMod_eq a e r one_lt_r
 
@@ -331,19 +332,15 @@ theorem sub_lt (a b : ℕ) : sub a b < r := Nat.mod_lt _ r_pos
 theorem mul_lt (a b : ℕ) : mul a b < r := Nat.mod_lt _ r_pos
 theorem pow_lt (a e : ℕ) : pow a e < r := by rw [pow_eq]; exact Nat.mod_lt _ r_pos
 
-theorem neg_lt (a : ℕ) (h : a % r ≠ 0) : neg a < r := by
-  have h1 : 0 < a % r := Nat.pos_of_ne_zero h
-  have h2 : a % r < r := Nat.mod_lt a r_pos
-  show r - a % r < r
-  omega
+theorem neg_lt (a : ℕ) : neg a < r := Nat.mod_lt _ r_pos
 
-theorem neg_of_mod_zero (a : ℕ) (h : a % r = 0) : neg a = r := by
-  unfold neg; rw [h, Nat.sub_zero]
+theorem neg_of_mod_zero (a : ℕ) (h : a % r = 0) : neg a = 0 := by
+  unfold neg; rw [h, Nat.sub_zero, Nat.mod_self]
 
 theorem inv_of_ne (a : ℕ) (h : a % r ≠ 0) : inv a = .ok (pow a (r - 2)) := by
   unfold inv; rw [if_neg h]
 
-theorem inv_of_mod_zero (a : ℕ) (h : a % r = 0) : inv a = .hang := by
+theorem inv_of_mod_zero (a : ℕ) (h : a % r = 0) : inv a = .err := by
   unfold inv; rw [if_pos h]
 
 theorem toZMod_ne_zero (a : ℕ) (h : a % r ≠ 0) : toZMod a ≠ 0 := by
@@ -564,30 +561,41 @@ theorem hexVal_lt : ∀ (cs : List Char) (a v : ℕ), hexVal cs (some a) = some 
       have hpos : 0 < 16 ^ cs.length := pow_pos (by norm_num) _
       nlinarith
 
-set_option exponentiation.threshold 300 in
 theorem fromString_ok (s : String) (v : ℕ) (hne : s.toList ≠ [])
     (hv : hexVal s.toList (some 0) = some v) (hlen : s.toList.length ≤ 71) :
     fromString s = .ok (v % r) := by
-  have hlt : v < 16 ^ 71 := by
-    have := hexVal_lt _ _ _ hv
-    rw [zero_add, one_mul] at this
-    exact lt_of_lt_of_le this (Nat.pow_le_pow_right (by norm_num) hlen)
-  have h288 : v % 2 ^ 288 = v := Nat.mod_eq_of_lt (lt_trans hlt (by decide))
-  have hclean : v < r * 2 ^ 33 := lt_trans hlt (by decide)
   unfold fromString
   split
   · rename_i h; exact absurd h hne
   · rw [hv]
-    simp only [h288, if_pos hclean]
+    simp only [if_neg (by omega : ¬ s.toList.length > 71)]
 
-theorem fromString_empty (s : String) (h : s.toList = []) : fromString s = .panic := by
+theorem fromString_empty (s : String) (h : s.toList = []) : fromString s = .err := by
   unfold fromString; rw [h]
 
 theorem fromString_nonhex (s : String) (h : hexVal s.toList (some 0) = none) :
-    fromString s = .panic := by
+    fromString s = .err := by
   unfold fromString
   split
   · rfl
   · rw [h]
+
+theorem fromString_long (s : String) (h : 71 < s.toList.length) : fromString s = .err := by
+  unfold fromString
+  split
+  · rfl
+  · split
+    · rfl
+    · rw [if_pos h]
+
+set_option exponentiation.threshold 300 in
+/-- an accepted string has a value below `2^284`: the reduction runs inside the 288 usable
+bits of an amcl `BIG` -/
+theorem fromString_value_lt (s : String) (v : ℕ) (hv : hexVal s.toList (some 0) = some v)
+    (hlen : s.toList.length ≤ 71) : v < 2 ^ 284 := by
+  have := hexVal_lt _ _ _ hv
+  rw [zero_add, one_mul] at this
+  have h2 : (16 : ℕ) ^ 71 = 2 ^ 284 := by decide
+  exact lt_of_lt_of_le this (h2 ▸ Nat.pow_le_pow_right (by norm_num) hlen)
 
 end CL.Sc
